@@ -175,8 +175,10 @@ namespace details {
             template< typename O >
             void each()
             {
+                // the index of a characteristic in the notification queue and in the client configuration is its
+                // position in the list sorted by priority
                 if ( O::characteristic_t::value_type::is_this( value ) )
-                    result = notification_data( O::first_attribute_index + 1, index );
+                    result = notification_data( O::first_attribute_index + 1, O::cccd_handle );
 
                 ++index;
             }
@@ -189,7 +191,7 @@ namespace details {
         static notification_data find_notification_data( const void* value )
         {
             notification_data result;
-            for_< characteristics_only_with_cccd >::each( attribute_value( result, value ) );
+            for_< characteristics_with_cccd_handle >::each( attribute_value( result, value ) );
 
             return result;
         }
